@@ -111,6 +111,16 @@ BUILTINS = {'dict', 'range', 'enumerate', 'str', 'int', 'len', 'abs', 'isinstanc
 PURE_MODULES = {'bisect', 'math', 'operator', 'string'}
 
 
+def _has_internal(vals) -> bool:
+    """Is one of the values an object of the folder's own representation (not a plain Python value a stdlib function understands)?"""
+    for v in vals:
+        if isinstance(v, (DV, EV, ClsRef, Bound)):
+            return True
+        if isinstance(v, tuple) and v and isinstance(v[0], str) and v[0] in ('lambda', 'closure', 'func', 'pyfunc', 'builtin', 'strmethod', 'pymodule', 'extern'):
+            return True
+    return False
+
+
 def _catches(htype, kind: str) -> bool:
     """Does `except <htype>` catch an exception of class name `kind` (builtin exception hierarchy; unknown classes by name)?"""
     import builtins
@@ -988,6 +998,10 @@ class Folder:
             except (Unsupported, FoldRaise):
                 raise
             except Exception as ex:  # noqa
+                if isinstance(ex, (TypeError, AttributeError)) and _has_internal(list(conv) + list(kw.values())):
+                    # the standard-library function was handed an analyser object it cannot work on: a limit of the folder, not
+                    # an exception of the subject
+                    raise Unsupported(f'native call {getattr(f[1], "__name__", f[1])} on an analyser object: {ex}')
                 raise FoldRaise(type(ex).__name__, str(ex))
         if isinstance(f, tuple) and f[0] == 'closure':
             return self._call_closure(f, args, kw)
@@ -998,9 +1012,14 @@ class Folder:
                 env2[prm.arg] = a
             return self._eval(node.body, env2, cmod, cci)
         if isinstance(f, tuple) and f[0] == 'strmethod':
+            conv2 = [self._as_callable(a) for a in args]
             try:
-                return getattr(f[1], f[2])(*[self._as_callable(a) for a in args], **kw)
+                return getattr(f[1], f[2])(*conv2, **kw)
+            except (Unsupported, FoldRaise):
+                raise
             except Exception as ex:  # noqa
+                if isinstance(ex, (TypeError, AttributeError)) and _has_internal(list(conv2) + list(kw.values())) and not isinstance(f[1], (list, set, dict)):
+                    raise Unsupported(f'native method {f[2]} on an analyser object: {ex}')
                 raise FoldRaise(type(ex).__name__, str(ex))
         if isinstance(f, tuple) and f[0] == 'builtin':
             n = f[1]
